@@ -248,7 +248,9 @@ Decors(p) ==
                       ELSE {})
   IN {<<c>> : c \in UNION {one(i) : i \in 1..n}}
      \cup (IF MaxDecor >= 2
-           THEN UNION {{<<c1, c2>> : c1 \in one(ij[1]), c2 \in one(ij[2])} : ij \in {q \in (1..n) \X (1..n) : q[1] < q[2] /\ q[2] <= q[1] + 2}}
+           \* (pairs: ordinary spellings, the star run and the empty line; the other spellings are covered one at a time)
+           THEN UNION {{<<c1, c2>> : c1 \in {x \in one(ij[1]) : x.sp \in {"plain", "stars2", "blankonly"}},
+                                      c2 \in {x \in one(ij[2]) : x.sp \in {"plain", "blankonly"}}} : ij \in {q \in (1..n) \X (1..n) : q[1] < q[2] /\ q[2] <= q[1] + 2}}
            ELSE {})
 
 \* one state per (program, decoration, layout); Init picks the program, Decorate the rest
